@@ -13,7 +13,7 @@ from .. import model_ac as M
 
 ID = "C12"
 LEVEL = "exploration"
-SHARDS = {"quick": 4, "thorough": 16}
+SHARDS = {"quick": 8, "thorough": 16}
 RULE = ("every Command subclass with every constructor/attribute value in its domain (GetState x 3 temperature types, "
         "GetCapabilities x 2 pages, ToggleDisplay x beep, energy, humidity, GetProperties over all 4096 subsets of the 12 "
         "property ids in several orders, SetProperties over every non-empty subset of the 9 encodable ids with generated "
@@ -278,4 +278,4 @@ def run(ctx) -> None:
                                      "split": st.integers(0, 3)})
     dev_cases = st.fixed_dictionaries({"op": st.just("device"), "profile": profile, "state": gens.settable_states(),
                                        "ops": st.lists(st.sampled_from(["refresh", "caps", "apply", "toggle", "clean", "set"]), min_size=1, max_size=8)})
-    ctx.hyp("device-ops", dev_cases, lambda c: _run_one(ctx, c), ctx.n(500, 48000))
+    ctx.hyp("device-ops", dev_cases, lambda c: _run_one(ctx, c), ctx.n(1600, 64000))
